@@ -690,6 +690,11 @@ func (v Int128Value) BitwiseRightShift(context ValueStaticTypeContext, other Int
 		panic(&NegativeShiftError{})
 	}
 	if !o.BigInt.IsUint64() {
+		// The shift count is larger than the bit size:
+		// all bits are shifted out, and only the sign remains (arithmetic shift)
+		if v.BigInt.Sign() < 0 {
+			return NewInt128ValueFromInt64(context, -1)
+		}
 		return NewInt128ValueFromInt64(context, 0)
 	}
 
